@@ -112,6 +112,8 @@ def build_cases(tier):
     add("target_package_path_is_file", IC, section={"target_package_path": "schema.graphql"}, names_in_msg=["schema.graphql"], tags={"cfg:path"}, states=("absent",))
     add("base_client_file_missing", IC, section={"base_client_name": "B", "base_client_file_path": "nope.py"}, names_in_msg=["nope.py"], tags={"cfg:path"})
     add("base_client_file_is_dir", IC, section={"base_client_name": "B", "base_client_file_path": "adir"}, names_in_msg=["adir"], files={"adir/x.txt": "x"}, tags={"cfg:path"})
+    add("base_client_name_without_file", IC, section={"base_client_name": "OnlyName"}, tags={"cfg:base_client_one_of_two"})
+    add("base_client_file_without_name", IC, section={"base_client_file_path": "mybase.py"}, files={"mybase.py": "class Other:\n    pass\n"}, tags={"cfg:base_client_one_of_two"})
     add("base_client_class_absent", IC, section={"base_client_name": "Missing", "base_client_file_path": "mybase.py"}, names_in_msg=["Missing"], files={"mybase.py": "class Other:\n    pass\n"}, tags={"cfg:base_client_class"})
     add("files_to_include_missing", IC, section={"files_to_include": ["nope_inc.py"]}, names_in_msg=["nope_inc.py"], tags={"cfg:path"})
     add("files_to_include_is_dir", IC, section={"files_to_include": ["adir"]}, names_in_msg=["adir"], files={"adir/x.txt": "x"}, tags={"cfg:path"})
